@@ -146,6 +146,10 @@ def run_case(ctx, case):
                 ctx.fail("clean-room:library-outside-the-module-search-path:%s" % ref["outcome"], {"probe": probe})
         elif ref["outcome"] == "ok" and (ref.get("cli") or {}).get("-l canopy", [None, None, None, None])[3] != ["canopy.Cover"]:
             ctx.fail("command-line-tool:library-named-with-l-is-not-the-one-used", {"probe": probe, "got": (ref.get("cli") or {}).get("-l canopy")})
+        elif ref["outcome"] == "ok" and (ref.get("cli") or {}).get("-l fuzzy (a user module)", [None, None, None, None])[3] != ["fuzzy.UserFuzz"]:
+            ctx.fail("command-line-tool:user-module-named-like-a-built-in-library-is-not-the-one-used", {"probe": probe, "got": (ref.get("cli") or {}).get("-l fuzzy (a user module)")})
+        elif ref["outcome"] == "ok" and (ref.get("lookups") or {}).get("main-module-library") != "has-MainCmd":
+            ctx.fail("clean-room:commands-of-the-main-module-not-found-under-__main__", {"probe": probe, "got": (ref.get("lookups") or {}).get("main-module-library")})
         elif ref["outcome"] != "ok":
             ctx.fail("clean-room:disjoint-libraries-rejected:%s" % ref["outcome"], {"probe": probe, "detail": ref})
         else:
